@@ -3,9 +3,18 @@
 always matches what ./check implements)."""
 import json, subprocess
 
-HOOK_COMMITS = ["4609c65", "f4b1344"]
+HOOK_COMMITS = ["4609c65", "122e4dd"]
 
 CHECKS = {
+ "C03": dict(engine="E2E", cat="fault_enumeration",
+   technique="proptest-generated transfer scenarios with a fault (network cut / cancellation) placed on the fault-free wire log of the same scenario; thorough tier enumerates every cut position of 200 base scenarios",
+   text="Generated transfers with flush/shutdown points and a network cut at a generated (quick) or every (thorough, fault enumeration) emission index, or a cancellation at a generated instant; readers read until end or error. Every Ok flush/shutdown must be backed by the peer application obtaining those bytes, clean EOF never with fewer bytes than a successful shutdown covered, operations resolve within inactivity + 75 s after an abort with data outstanding (1 s after cancel).",
+   note="quick tier samples cut positions (plus full enumeration of 6 scenarios); F8-type hangs at a closed window are counted as known finding F8-C03", ref="§5 C03"),
+ "C14": dict(engine="E2E", cat="exploration",
+   technique="proptest-generated link/path MTU configurations with blackhole or EMSGSIZE and fair loss; wire-log oracle on datagram sizes, probe discipline and convergence",
+   text="Generated link MTUs, true path MTUs, address families, probe retransmission limits and loss of non-probe datagrams; every datagram fits the emitter's link MTU, first transmissions above the proven size are single newest probes, data stays intact, the steady size equals the largest fitting payload within 2*ceil(log2(range))+3 probes.",
+   note="probes are exempt from random loss; asymmetric path MTUs hit known finding F21, delivered-probe/lost-ack hits F7", ref="§5 C14"),
+
  "C02": dict(engine="E2E", cat="exploration",
    technique="proptest-generated end-to-end transfers over a fair-lossy simulated network with a virtual-time deadline oracle; loss-free runs with same-instant promptness oracles",
    text="(a) Generated bidirectional transfers under a fair-lossy fault plan (per-identity drop budget k in {1,2}, bounded delay/duplication, handshake protected): by a virtual deadline derived from the plan everything written is read, flush/shutdown resolved, nothing failed; a miss is re-run with 4x the deadline before being reported. (b) Loss-free fixed-latency runs: silent interval with undelivered bytes <= 2L+40 ms, write/shutdown on an idle connection act at the same virtual instant, no retransmission for L<=60 ms.",
